@@ -667,7 +667,8 @@ pub fn check(tier: &str, std_bin: &str) -> i32 {
 
     // ---- assumption monitor: the event-granularity argument needs workers that share no mutable state
     // outside the wrapped thread/channel operations. Scan the library sources for constructs that
-    // would introduce such state (statics with interior mutability, static mut, thread_local, lazies).
+    // would introduce such state (statics with interior mutability, static mut, thread_local, lazies, and any synchronisation
+    // primitive other than the wrapped thread/channel ones: atomics, locks, Arc, unsafe).
     let repo = std::env::var("IPT_REPO_DIR").unwrap_or_else(|_| "/repo".to_string());
     let mut shared_state_sites: Vec<String> = vec![];
     fn scan(dir: &std::path::Path, out: &mut Vec<String>) {
@@ -685,7 +686,8 @@ pub fn check(tier: &str, std_bin: &str) -> i32 {
                             }
                             let is_static = t.starts_with("static ") || t.starts_with("pub static ") || t.starts_with("pub(crate) static ");
                             let interior = ["Mutex", "RwLock", "Atomic", "Cell", "OnceLock", "OnceCell", "LazyLock", "Lazy<"].iter().any(|k| t.contains(k));
-                            if t.contains("static mut ") || t.contains("thread_local!") || t.contains("lazy_static!") || (is_static && interior) {
+                            let sync_outside_shim = ["Atomic", "Mutex", "RwLock", "Condvar", "Barrier", "UnsafeCell", "unsafe ", "Arc<", "Arc::"].iter().any(|k| t.contains(k));
+                            if t.contains("static mut ") || t.contains("thread_local!") || t.contains("lazy_static!") || (is_static && interior) || sync_outside_shim {
                                 out.push(format!("{}:{}: {}", p.display(), i + 1, t));
                             }
                         }
